@@ -155,12 +155,22 @@ static const c05_scn *g5;
 static tp_p g5_tp;
 static atomic_uint g5_go, g5_done, g5_stall_in, g5_stall_release, g5_stall_shutdown_by_self;
 
+static uint32_t g5_nested_id = UINT32_MAX;
+static atomic_uint g5_nested_done;
+static void c05_noop_cb(tpt_p tpt, void *udata) { (void)tpt; (void)udata; }
 static void
 c05_cb(tpt_p tpt, void *udata) {
 	send_slot *s = udata;
 
 	tp_log(R_CB, s->id, (uint64_t)(uintptr_t)tpt, 0, 0);
 	atomic_fetch_add(&s->cb_count, 1);
+	if (s->id == g5_nested_id && tpt_get_current() == tpt && 0 == atomic_exchange(&g5_nested_done, 1)) {
+		/* a message handler that synchronises with the other threads: the rest of this thread's batch and of its queue must
+		 * still run afterwards, in order, on this thread */
+		size_t sent = 0, failed = 0;
+		(void)tpt_msg_bsend_ex(g5_tp, NULL, (TP_BMSG_F_SYNC | TP_BMSG_F_SELF_SKIP), c05_noop_cb, NULL, &sent, &failed);
+		atomic_store(&g5_nested_done, 2);
+	}
 }
 
 /* a message whose argument is the address of its own callback: packet checksum (cb ^ udata) is 0 */
@@ -317,6 +327,8 @@ c05_run(const c05_scn *scn, c05_out *out) {
 	memset(ext_used, 0, sizeof(ext_used));
 	g5 = scn;
 	g5_selfarg_id = UINT32_MAX;
+	g5_nested_id = UINT32_MAX;
+	atomic_store(&g5_nested_done, 0);
 	tp_harness_reset(&scn->plans);
 	for (i = 0; i < C05_SLOTS; i ++) {
 		slots[i].id = (uint32_t)i;
@@ -361,6 +373,8 @@ c05_run(const c05_scn *scn, c05_out *out) {
 	tp_harness_arm();
 	atomic_store(&g5_go, 1);
 	if (255 != scn->stall_dst) {
+		if (scn->nested_sync && scn->nthreads >= 2)
+			g5_nested_id = (uint32_t)total;
 		for (b = 0; b < scn->burst && b < 4096; b ++) {
 			id = (uint32_t)(total + b);
 			tp_log(R_SEND_CALL, id, 0, 0, 0);
